@@ -342,8 +342,12 @@ def empty_like(a, dtype=None, **kw):
     return empty(np.shape(a), dtype=DType(_like_kind(a, dtype)))
 
 
-def full_like(a, v, dtype=None, **kw):
-    return _filled(np.shape(a), v, _like_kind(a, dtype))
+def full_like(a, fill_value, dtype=None, **kw):
+    from .interp import Opaque
+
+    if isinstance(fill_value, Opaque):
+        fill_value = ring.sym("NaN")
+    return _filled(np.shape(a), fill_value, _like_kind(a, dtype))
 
 
 def eye(N, M=None, k=0, dtype=None, **kw):
